@@ -205,6 +205,14 @@ func plainRef(a *Addr) Sx {
 	return ""
 }
 
+// arrayObjRef: the reference of a whole array object (from `new [N]T`), or ""
+func arrayObjRef(base Val) Sx {
+	if base.addr == nil {
+		return base.t
+	}
+	return plainRef(base.addr)
+}
+
 func (f *Frame) nilCheck(st *State, v Val, in ssa.Instruction) {
 	if v.t == "" {
 		return
@@ -238,6 +246,12 @@ func (f *Frame) alloc(b *ssa.BasicBlock, st *State, x *ssa.Alloc) Val {
 	tr := f.tr
 	v := f.freshRef(b, st, x.Type())
 	// zero-initialise
+	if arr, ok := derefType(x.Type()).Underlying().(*types.Array); ok {
+		if _, isStruct := arr.Elem().Underlying().(*types.Struct); !isStruct {
+			f.zeroElems(b, st, v.t, arr.Elem())
+			return v
+		}
+	}
 	a := tr.addrOf(v, x.Type())
 	f.storeZero(st, a, b.Index)
 	return v
@@ -727,6 +741,18 @@ func (f *Frame) idxTerm(v ssa.Value) Sx {
 
 func (f *Frame) boundsCheck(st *State, idx Sx, n Sx, in ssa.Instruction) {
 	it := f.tr.c.it
+	// constant index into a fixed-size array (compiler-built argument arrays): nothing to prove
+	if ia, ok := in.(*ssa.IndexAddr); ok {
+		if cv, ok := ia.Index.(*ssa.Const); ok && cv.Value != nil {
+			if p, ok := ia.X.Type().Underlying().(*types.Pointer); ok {
+				if arr, ok := p.Elem().Underlying().(*types.Array); ok {
+					if k := cv.Int64(); k >= 0 && k < arr.Len() {
+						return
+					}
+				}
+			}
+		}
+	}
 	f.safetyObl(st, "index", and(it.le(I64, it.iconst(0), idx), it.lt(I64, idx, n)), in)
 }
 
@@ -747,6 +773,14 @@ func (f *Frame) indexAddr(st *State, x *ssa.IndexAddr) Val {
 		f.boundsCheck(st, idx, it.iconst(arr.Len()), x)
 		if base.addr == nil {
 			f.nilCheck(st, base, x)
+		}
+		if r := arrayObjRef(base); r != "" {
+			// a whole array object (new [N]T): its elements live in the slice-element heap so
+			// that slices of it alias it
+			if _, isStruct := arr.Elem().Underlying().(*types.Struct); !isStruct {
+				key := "E:" + shortType(arr.Elem())
+				return Val{addr: &Addr{key: key, idxs: []Sx{r, idx}, typ: arr.Elem()}, typ: x.Type()}
+			}
 		}
 		a := tr.addrOf(base, x.X.Type())
 		return Val{addr: &Addr{key: a.key + "[]", idxs: append(append([]Sx{}, a.idxs...), idx), typ: arr.Elem(), gl: a.gl}, typ: x.Type()}
@@ -815,6 +849,11 @@ func (f *Frame) sliceOp(b *ssa.BasicBlock, st *State, x *ssa.Slice) Val {
 			hi = f.idxTerm(x.High)
 		}
 		f.safetyObl(st, "slice", and(it.le(I64, z, lo), it.le(I64, lo, hi), it.le(I64, hi, n)), x)
+		if r := arrayObjRef(base); r != "" {
+			if _, isStruct := arr.Elem().Underlying().(*types.Struct); !isStruct {
+				return Val{t: c.define(x.Name(), "Slice", sx("mk_slice", r, lo, it.sub(I64, hi, lo), it.sub(I64, n, lo))), typ: x.Type()}
+			}
+		}
 		c.unsupp("slice of array pointer in %s", f.fn.Name())
 		return Val{t: c.declConst("sl", "Slice"), typ: x.Type()}
 	}
@@ -843,7 +882,7 @@ func (f *Frame) makeSlice(b *ssa.BasicBlock, st *State, x *ssa.MakeSlice) Val {
 	it := c.it
 	n := f.idxTerm(x.Len)
 	cp := f.idxTerm(x.Cap)
-	f.safetyObl(st, "make", and(it.le(I64, it.iconst(0), n), it.le(I64, n, cp), it.le(I64, cp, it.iconst(1<<31))), x)
+	f.safetyObl(st, "make", and(it.le(I64, it.iconst(0), n), it.le(I64, n, cp), it.le(I64, cp, it.iconst(1<<40))), x)
 	r := f.freshRef(b, st, x.Type())
 	elem := x.Type().Underlying().(*types.Slice).Elem()
 	f.zeroElems(b, st, r.t, elem)
